@@ -78,6 +78,10 @@ func runC07(c *core.Case) {
 			return
 		}
 	}
+	if r.P(0.0005) || (c.Tier == "thorough" && c.I < 4) {
+		c07Hammer(c)
+		return
+	}
 	id := genID(r, 0, 35, 0, 35)
 	if r.P(0.05) {
 		// f beyond the zoom's nominal range: the shift is unbounded vertically, such IDs are results of earlier shifts
@@ -167,4 +171,39 @@ func runC07(c *core.Case) {
 	if gotZero != s {
 		c.Fail("shift-identity", nil, "shift(id,0,0,0) = %q, not %q", gotZero, s)
 	}
+}
+
+// c07Hammer: many goroutines shift IDs at once - a small pool of IDs that all goroutines share (few keys, many threads)
+// mixed with fresh IDs (every call a new key) - each result judged against modular translation.
+func c07Hammer(c *core.Case) {
+	r := c.R
+	G := []int{4, 16, 32, 64}[r.Intn(4)]
+	n := 3000
+	if c.Tier == "thorough" && c.I < 4 {
+		G, n = []int{16, 64, 8, 32}[c.I], 400000
+	}
+	pool := make([]ref.ID, 2+r.Intn(63))
+	for i := range pool {
+		pool[i] = genID(r, 0, 35, 0, 35)
+	}
+	fresh := []float64{0, 0.5, 1}[r.Intn(3)]
+	c.KI(int64(G), int64(n), int64(len(pool)))
+	c.KS(pool[0].Ext())
+	c.NonTrivial()
+	c.Desc = func() any {
+		return map[string]any{"scenario": "concurrent shifts", "goroutines": G, "calls_per_goroutine": n, "shared_pool": len(pool), "fraction_fresh_ids": fresh}
+	}
+	hammer(c, G, n, func(r *core.Rng, sc *core.Case) {
+		id := pool[r.Intn(len(pool))]
+		if r.P(fresh) {
+			id = genID(r, 0, 35, 0, 35)
+		}
+		dx, dy, dv := genShiftH(r, id.H), genShiftH(r, id.H), genShiftV(r)
+		s := id.Ext()
+		got := operated.GetShiftingSpatialID(s, dx, dy, dv)
+		sc.Call()
+		if want := ref.Shift(id, dx, dy, dv).Ext(); got != want {
+			sc.Fail("shift-value", nil, "GetShiftingSpatialID(%s,%d,%d,%d) = %q, modular translation gives %q", s, dx, dy, dv, got, want)
+		}
+	})
 }
